@@ -100,12 +100,19 @@ Fixpoint all3 {X Y Z} (p : X -> Y -> Z -> bool) (a : seq X) (b : seq Y) (c : seq
   | _, _, _ => false
   end.
 
-Definition oracle_ok (tol : float) (o : opd float) : bool :=
+Definition oracle_ok (s0 : settings) (tol : float) (o : opd float) : bool :=
   match o with
   | DKronAddedDiag fs DConst _ eig => all2 (eig_ok tol) fs eig
   | DKronAddedKronDiag true fs _ eig => all2 (eig_ok tol) fs eig
   | DKronAddedKronDiag false fs ds eig =>
       all3 (fun f dv e => eig_ok_mat tol (osize f) (sym_scaled ArFloat (osize f) (dense_of ArFloat f) dv) e) fs ds eig
+  | DSumKron fs1 fs2 eig =>
+      (* the oracle is that of  R_i^T A_i R_i  with the model's own inverse roots (a Lanczos root has no model: accept) *)
+      all3 (fun f1 f2 e =>
+              match inv_root ArFloat s0 (osize f2) (dense_of ArFloat f2) with
+              | Some R => eig_ok_mat tol (osize f2) (congr_t ArFloat (osize f2) R (dense_of ArFloat f1)) e
+              | None => true
+              end) fs1 fs2 eig
   | _ => true
   end.
 
@@ -150,11 +157,16 @@ Definition path_ok (c : case) : bool :=
                                 (case_cls c) (case_method c))
        (o_events2 c).
 
+(* value tolerance of a case: c_tol is the tolerance of the OPERATOR's dtype (binary64: 1e-9 / 1e-7 by condition number,
+   binary32: 2e-3); an eigen-structured method under linalg_dtypes(symeig = float32) computes in binary32 *)
+Definition case_tol (c : case) : float :=
+  if uses_symeig (case_method c) && linalg_symeig_single (c_set c) then fmax (c_tol c) 0x1.0624dd2f1a9fcp-9 (* 2e-3 *) else c_tol c.
+
 (* per-member verdict: 0 ok, otherwise the reason code *)
 Definition member_code (c : case) (m : member) : nat :=
-  if ~~ oracle_ok 0x1.ad7f29abcaf48p-24 (* 1e-7 *) (m_op m) then 5%N else
+  if ~~ oracle_ok (c_set c) 0x1.ad7f29abcaf48p-24 (* 1e-7 *) (m_op m) then 5%N else
   match alg_solve ArFloat (c_set c) (m_op m) (m_right m) (m_left m) with
-  | Some X => if cols_close (if m_tol m is Some t then t else c_tol c) X (m_out m) then 0%N else 2%N
+  | Some X => if cols_close (if m_tol m is Some t then t else case_tol c) X (m_out m) then 0%N else 2%N
   | None =>
       if direct (case_method c) then 3%N else 0%N      (* residual: judged over the whole call, see resid_call_ok *)
   end.
